@@ -21,10 +21,16 @@ def to_py(n):
     if t == "int":
         return n["n"]
     if t == "float":
+        if n["d"] == 0:  # the special floats of YAML: .inf / .nan
+            return float("inf") if n["n"] else float("nan")
         return n["n"] / n["d"]
     if t == "bool":
         return bool(n["b"])
     return None
+
+
+GLOBAL_DOC = {"action": "global", "level": "critical", "tags": ["attack.g0001"], "logsource": {"product": "gp"}, "detection": {"gsel": {"g": 1}}}
+RULE_DOC = {"title": "Valid rule", "logsource": {"category": "c"}, "detection": {"sel": {"a": 1}, "condition": "sel"}}
 
 
 def _err(e):
@@ -54,16 +60,29 @@ def drive_case(case):
     from sigma.collection import SigmaCollection
 
     doc = to_py(case["doc"])
-    cls = {"rule": SigmaRule, "corr": SigmaCorrelationRule, "filter": SigmaFilter}[case["kind"]]
     o = {"id": case["id"], "kind": case["kind"], "mut": case["mut"]}
-    o["direct_strict"] = _load(lambda: cls.from_dict(copy.deepcopy(doc)), lambda x: [])
-    o["direct_collect"] = _load(lambda: cls.from_dict(copy.deepcopy(doc), collect_errors=True), lambda x: x.errors)
 
     def coll_errors(c):
         return list(c.errors) + [e for r in c.rules for e in r.errors] + [e for f in c.filters for e in f.errors]
 
-    o["coll_strict"] = _load(lambda: SigmaCollection.from_dicts([copy.deepcopy(doc)], resolve_references=False), lambda x: [])
-    o["coll_collect"] = _load(lambda: SigmaCollection.from_dicts([copy.deepcopy(doc)], collect_errors=True, resolve_references=False), coll_errors)
+    # collection actions: the document is loaded together with a global / repeat action document
+    docs = [doc]
+    if case["kind"] == "global+rule":
+        docs = [GLOBAL_DOC, doc]
+    elif case["kind"] == "global*+rule":
+        docs = [doc, RULE_DOC]
+    elif case["kind"] == "rule+repeat*":
+        if isinstance(doc, dict) and doc.get("action") == "global":
+            doc["action"] = "repeat"
+        docs = [RULE_DOC, doc]
+    o["coll_strict"] = _load(lambda: SigmaCollection.from_dicts(copy.deepcopy(docs), resolve_references=False), lambda x: [])
+    o["coll_collect"] = _load(lambda: SigmaCollection.from_dicts(copy.deepcopy(docs), collect_errors=True, resolve_references=False), coll_errors)
+    if case["kind"] in ("rule", "corr", "filter"):
+        cls = {"rule": SigmaRule, "corr": SigmaCorrelationRule, "filter": SigmaFilter}[case["kind"]]
+        o["direct_strict"] = _load(lambda: cls.from_dict(copy.deepcopy(doc)), lambda x: [])
+        o["direct_collect"] = _load(lambda: cls.from_dict(copy.deepcopy(doc), collect_errors=True), lambda x: x.errors)
+    else:
+        o["direct_strict"], o["direct_collect"] = o["coll_strict"], o["coll_collect"]
     o["_doc"] = repr(doc)[:600]
     return o
 
@@ -71,7 +90,7 @@ def drive_case(case):
 def run(tier: str, seed: int) -> int:
     chk = Check("C07", tier, seed, "exploration")
     chk.model_check("MC_Loader")
-    cases = chk.generate("Gen_C07", shards=[1, 2, 3, 4, 5])
+    cases = chk.generate("Gen_C07", shards=[1, 2, 3, 4, 5, 6])
     obs = drive("harness.props.c07", "drive_case", cases)
     docs = {o["id"]: o.pop("_doc") for o in obs}
     verdicts = chk.judge("Judge_C07", obs)
@@ -91,10 +110,11 @@ def run(tier: str, seed: int) -> int:
         evaluations=len(obs),
         distinct_nontrivial=len({docs[o["id"]] for o in obs if o["mut"] != "none"}),
         rule="TLC (Gen_C07) mutates 4 base documents (rule with every metadata field and all detection shapes, correlation, "
-        "extended correlation, filter) at EVERY path of their trees: value replaced by each of 18 replacements (scalars of "
-        "every type, empty/non-empty list and map, out-of-range date / timespan / pattern texts), entry deleted, key replaced "
+        "extended correlation, filter) at EVERY path of their trees: value replaced by each of 23 replacements (scalars of "
+        "every type, empty/non-empty list and map, out-of-range date / timespan / pattern texts, .inf / .nan, nested lists), entry deleted, key replaced "
         "(text, empty, integer, boolean, null, key with unknown modifier), whole document replaced; plus seeded random nested "
-        "data; each document is loaded strictly and collecting, through its class and through SigmaCollection.from_dicts; "
+        "data; plus collection actions (the rule mutated under the keys a preceding global action document merges into, a mutated "
+        "global / repeat action document around a valid rule); each document is loaded strictly and collecting, through its class and through SigmaCollection.from_dicts; "
         "distinct = distinct documents; non-trivial = mutated",
         samples=samples,
         traces=len(obs),
